@@ -10,7 +10,7 @@ VARIANTS = {
     "multipart.field": ["field-whitespace", "valid"],
     "aggregate": ["unterminated-file", "binary-file", "valid"],
 }
-ALL = ["valid", "binary-file", "field-whitespace", "unterminated-file", "bad-signature", "other-secret", "empty-signature", "truncated-signature", "extended-signature"]
+ALL = ["valid", "nested-meta", "binary-file", "field-whitespace", "unterminated-file", "bad-signature", "other-secret", "empty-signature", "truncated-signature", "extended-signature"]
 def _run(ctx, variants):
     res = None
     for v in variants:
